@@ -193,6 +193,16 @@ class P(Prop):
                 self.lib_check(name, c, {"w": w})
         self.lib_check("half_adder", cg.logic.half_adder(), {})
         self.lib_check("full_adder", cg.logic.full_adder(), {})
+        # call history: the caller edits blocks it obtained earlier (in place, as their owner may); what the generators
+        # build afterwards must still be lint-clean
+        gen.poison_generators(rng)
+        self.stats.bump("history:poisoned-generator-results")
+        for w in range(1, 5):
+            for name, c in [("adder", cg.logic.adder(w)), ("adder_cio", cg.logic.adder(w, True, True)),
+                            ("mux", cg.logic.mux(w)), ("popcount", cg.logic.popcount(w))]:
+                self.lib_check(name, c, {"w": w, "history": "after earlier results were edited"})
+        self.lib_check("half_adder", cg.logic.half_adder(), {"history": "after an earlier result was edited"})
+        self.lib_check("full_adder", cg.logic.full_adder(), {"history": "after an earlier result was edited"})
         for i in range(n):
             c = gen.circuit(rng, dead=True, out_inputs=0.3 if i % 2 else 0.08)
             cj = c_to_json(c)
